@@ -11,7 +11,7 @@ POk(k) ==
       C == Norm(k.clen) IN
   /\ ~k.ub                                                   \* "No input triggers arithmetic overflow"
   /\ ~ref.ok => ~k.parsed                                    \* "A header with any syntactically invalid spec is ignored entirely"
-  /\ (ref.ok /\ FitsAll(ref.specs)) => k.parsed              \* a valid header whose positions are representable is honoured
+  /\ (ref.ok /\ FitsAll(ref.specs)) => k.parsed              \* a valid header with workable numbers is honoured
   /\ (k.parsed /\ ref.ok) =>
         /\ \A j \in 1..Len(k.canon) : ~k.canon[j].on /\ ~k.canon[j].ln
         /\ NonEmptyInside(GotIv(k.canon), C)                 \* "non-empty, lie within the representation"
